@@ -9,6 +9,7 @@ import (
 	"encoding/hex"
 	"encoding/json"
 	"fmt"
+	"sync"
 	"time"
 
 	"verif/htlab/internal/core"
@@ -372,6 +373,8 @@ func sibling(h hello, r *core.Rng) hello {
 
 type params struct {
 	Off int `json:"off"`
+	// Conc > 1: that many exchanges run at the same time
+	Conc int `json:"conc,omitempty"`
 }
 
 func (prop) Plan(tier string, seed int64) []core.Batch {
@@ -385,6 +388,13 @@ func (prop) Plan(tier string, seed int64) []core.Batch {
 		p, _ := json.Marshal(params{Off: c * per})
 		plan = append(plan, core.Batch{Name: fmt.Sprintf("hellos/%d", c), N: per, Params: p, Timeout: 1800})
 	}
+	// the first hellos again, 16 connections at a time
+	nc := 3200
+	if tier == "thorough" {
+		nc = 32000
+	}
+	pc, _ := json.Marshal(params{Off: 0, Conc: 16})
+	plan = append(plan, core.Batch{Name: "hellos-concurrent", N: nc, Params: pc, Timeout: 1800})
 	return plan
 }
 
@@ -407,6 +417,23 @@ func (prop) Child(b core.Batch, o *core.Obs) {
 	to := b.To
 	if to == 0 {
 		to = b.N
+	}
+	if p.Conc > 1 {
+		// the same exchanges, p.Conc of them at the same time (fingerprints are taken on the handlers' goroutines)
+		for base := b.From; base < to; base += p.Conc {
+			o.Begin(base)
+			var wg sync.WaitGroup
+			for k := base; k < base+p.Conc && k < to; k++ {
+				wg.Add(1)
+				go func(k int) {
+					defer wg.Done()
+					o.EmitXK("obs", k, exchange(srv, b.Seed, p.Off+k, k))
+				}(k)
+			}
+			wg.Wait()
+			o.End(base)
+		}
+		return
 	}
 	for k := b.From; k < to; k++ {
 		h, msg, _ := scenarioHello(b.Seed, p.Off+k)
@@ -442,6 +469,39 @@ func (prop) Child(b core.Batch, o *core.Obs) {
 		o.EmitX("obs", ob)
 		o.End(k)
 	}
+}
+
+// exchange sends hello number idx on a connection of its own and returns what was observed for it.
+func exchange(srv *lab.Server, seed int64, idx, k int) obs {
+	h, msg, _ := scenarioHello(seed, idx)
+	r := core.NewRng(seed, "C13/wire", idx)
+	wire := records(msg, h.Records, r)
+	port := 10000 + k%50000
+	ip := fmt.Sprintf("203.0.%d.%d", 113+(k/50000), 1+k%200)
+	ev0 := lab.Events.Len()
+	cc := srv.L.DialTCP(lab.TCPAddr("10.0.0.1", 443), lab.TCPAddr(ip, port))
+	cl := lab.NewClient(cc)
+	cl.SendCuts(wire, gen.Cuts(r, len(wire), h.Seg), 3*time.Second)
+	cl.WaitIdle(25 * time.Second)
+	ob := obs{Reply: len(cl.Received())}
+	cl.Close()
+	mine := func(evs []lab.Captured) *lab.Captured {
+		for i := range evs {
+			sp, _ := lab.Int(evs[i].Rec, "source-port")
+			if int(sp) == port && lab.Str(evs[i].Rec, "source-ip") == ip && lab.Str(evs[i].Rec, "category") == "https" {
+				return &evs[i]
+			}
+		}
+		return nil
+	}
+	lab.Events.WaitFor(ev0, func(evs []lab.Captured) bool { return mine(evs) != nil }, 5*time.Second)
+	if e := mine(lab.Events.Since(ev0)); e != nil {
+		ob.Event = true
+		ob.Type = lab.Str(e.Rec, "type")
+		ob.Digest = lab.Str(e.Rec, "https.ja3-digest")
+		ob.SNI = lab.Str(e.Rec, "https.server-name")
+	}
+	return ob
 }
 
 func greaseClass(h hello) string {
